@@ -27,7 +27,7 @@ func init() {
 		Assumptions: []string{
 			"reference ref.ArcToCenter: SVG 1.1 F.6.5/F.6.6 in float64, own implementation",
 			"on-ellipse tolerance 1e-3 (a cubic spanning 90 degrees deviates 2.8e-4) plus a float32 conditioning term that grows as 1/chord when the chord is short compared with the radii (the centre is then ill-determined by the end points); sweep extent tolerance 2e-2 rad plus that term; endpoint 1e-5 relative",
-			"arcs with |radii check - 1| < max(1e-4, 50 x the float32 rounding of pen and end point relative to the radii) (half turn fitting exactly) are excluded from the on-ellipse/extent checks only: centre and flags are ill-conditioned there (an input error eps moves the curve by sqrt(eps) of the radius)",
+			"arcs with |radii check - 1| < max(1e-4, 2e-6 x the magnitudes of pen and end point relative to the radii) (half turn fitting exactly) are excluded from the on-ellipse/extent checks only: centre and flags are ill-conditioned there (an input error eps moves the curve by sqrt(eps) of the radius); outside that band and below 1 the conditioning term carries the factor 1 + 1/sqrt(1/check - 1)",
 			"shallow arcs (chord below 5e-3 in unit-circle coordinates, small arc) are also judged in pixels: a point at unit-circle radius r is at least |r-1|*min(radii)*min(scales) px off the ellipse; tolerance 0.02 px + 2e-6 of the pixel magnitudes involved (the unchanged tree stays below 4e-4 px on 8192-px targets for radii up to 1e8)",
 		},
 		Subs: []*run.Sub{
@@ -459,9 +459,16 @@ func c06Arc(c *run.Ctx, idx uint64) {
 	minR0 := math.Min(a.RX, a.RY)
 	condBase := 1e-6 * (math.Abs(a.CX) + math.Abs(a.CY) + math.Abs(X1) + math.Abs(Y1) + math.Abs(X2) + math.Abs(Y2) +
 		(math.Abs(float64(penX))+math.Abs(epx))/sx + (math.Abs(float64(penY))+math.Abs(epy))/sy) / minR0
-	if math.Abs(a.Lambda-1) < math.Max(1e-4, 50*condBase) {
+	band := math.Max(1e-4, 2*condBase)
+	if math.Abs(a.Lambda-1) < band {
 		c.Count("ill_conditioned_skipped", 1)
 		return
+	}
+	// outside the band, below 1: the square-root amplification as a factor of the
+	// conditioning term (1.3 for radii three times the chord, 11 at 1 % from fitting)
+	nearHalf := 1.0
+	if a.Lambda < 1 {
+		nearHalf = 1 + 1/math.Sqrt(math.Max(1/a.Lambda-1, band))
 	}
 	prevAng := math.NaN()
 	total := 0.0
@@ -489,7 +496,7 @@ func c06Arc(c *run.Ctx, idx uint64) {
 			// float32 rounding of the recorded pixel coordinates and of the
 			// renderer's own viewBox-space arithmetic, relative to the radius
 			cond := 1e-6 * (math.Abs(a.CX) + math.Abs(a.CY) + math.Abs(ux) + math.Abs(uy) +
-				(math.Abs(p[0])+math.Abs(float64(penX)))/sx + (math.Abs(p[1])+math.Abs(float64(penY)))/sy) / minR * illFactor
+				(math.Abs(p[0])+math.Abs(float64(penX)))/sx + (math.Abs(p[1])+math.Abs(float64(penY)))/sy) / minR * illFactor * nearHalf
 			worstCond = math.Max(worstCond, cond)
 			dev := math.Abs(rad-1) - cond
 			c.MaxF("worst_ellipse_deviation", math.Min(math.Max(dev, 0), 1))
